@@ -28,7 +28,7 @@ proof! {
 }
 
 proof! {
-    //@ props=C18,C09 tier=quick bounds=history:two-calls-each-writing-the-same-deduplicated-string-twice;ids-restart cap=900
+    //@ props=C18,C09 tier=off bounds=history:two-calls-each-writing-the-same-deduplicated-string-twice;ids-restart cap=900
     fn c18_dedup_ids_restart() unwind(6) {
         let c = sym::u8_();
         sym::assume(c < 0x80);
